@@ -441,7 +441,7 @@ class ANF:
                 # a repository module attribute
                 if self.ix.has_module(b[1]):
                     r = self.ix.resolve(b[1], e.attr)
-                    if r is not None and r[0] == "func":
+                    if r is not None and r[0] in ("func", "class"):
                         return ("f", r[1].qualname)
                     if r is not None and r[0] == "module":
                         return ("x", r[1])
@@ -727,6 +727,21 @@ def base_of(t):
     while isinstance(t, tuple) and t[0] == "upd":
         t = t[1]
     return t
+
+
+def roots(t):
+    """keys of the objects a (functionally updated, possibly conditional) container term is built on"""
+    out = set()
+    stack = [t]
+    while stack:
+        x = stack.pop()
+        if isinstance(x, tuple) and x and x[0] == "upd":
+            stack.append(x[1])
+        elif isinstance(x, tuple) and x and x[0] == "ite":
+            stack.extend([x[2], x[3]])
+        else:
+            out.add(key(x))
+    return out
 
 
 def truth(t):
